@@ -13,7 +13,9 @@ back and must render identically; a third colour must be the fatal error.
 import itertools
 import re
 
-from ..core import hx, unhx, parallel_map
+import os
+
+from ..core import hx, unhx, parallel_map, LEAN
 from .. import termmodel as T
 
 DRIVERS = ["drv_style"]
@@ -468,6 +470,10 @@ def corr_config(ctx, rep, mdl, orc):
             if oracle_parse(s) == "error" or s.strip().endswith("-style") and " " not in s.strip():
                 continue
             jobs.append((opt, s, rng.choice(["always", "never"])))
+        # every option, both depths, the four kinds of colour word (deterministic)
+        for tcs in ("always", "never"):
+            jobs.append((opt, "#123456 rebeccapurple", tcs))
+            jobs.append((opt, "bright-blue 201", tcs))
 
     def one(job):
         opt, s, tc = job
@@ -901,6 +907,188 @@ def invariance_oracle(ctx, rep, orc):
                               dict(a=m[1], b=m[2], got=last))
 
 
+# --------------------------------------------------------------------------- same meaning in every option
+
+GREP_TXT = b"src/a.rs:12:let matchq = 1;\nsrc/a.rs-13-let ctxq = 2;\n"
+RG_JSON = (b'{"type":"begin","data":{"path":{"text":"src/a.rs"}}}\n'
+           b'{"type":"match","data":{"path":{"text":"src/a.rs"},"lines":{"text":"fn wordq() {}\\n"},"line_number":12,'
+           b'"absolute_offset":0,"submatches":[{"match":{"text":"wordq"},"start":3,"end":8}]}}\n'
+           b'{"type":"end","data":{"path":{"text":"src/a.rs"},"binary_offset":null,"stats":{"elapsed":{"secs":0,"nanos":1,'
+           b'"human":"0s"},"searches":1,"searches_with_match":1,"bytes_searched":10,"bytes_printed":10,"matched_lines":1,"matches":1}}}\n')
+BLAME_TXT = (b"aaaaaaaa (Alice 2020-01-01 10:00:00 +0000   1) codeq one\n"
+             b"bbbbbbbb (Bob   2020-01-02 10:00:00 +0000   2) codeq two\n")
+MERGE_DIFF = (b"diff --cc f.zzz\nindex 1111111,2222222..0000000\n--- a/f.zzz\n+++ b/f.zzz\n@@@ -1,1 -1,1 +1,5 @@@\n"
+              b"++<<<<<<< HEAD\n +oursq\n++=======\n+ theirsq\n++>>>>>>> branch\n")
+BOXCH = "─│┐┘━┃┓┛"
+DEPTH_COLOURS = ["#123456", "rebeccapurple", "bright-blue", "201"]
+
+
+def generated_style_options():
+    """`cliStyleOptions` and the option-site names of the generated inventory (not a hand-kept list)."""
+    src = open(os.path.join(LEAN, "DeltaModel", "Generated", "StyleSites.lean"), encoding="utf-8").read()
+    m = re.search(r"def cliStyleOptions : List String :=\s*\[(.*?)\]", src, re.S)
+    opts = re.findall(r'"([a-z-]+)"', m.group(1)) if m else []
+    sites = re.findall(r'⟨"([a-z-]+)", "option"', src)
+    return opts, sites
+
+
+def _text_cells(needle, skip_rows_with=()):
+    def f(dec):
+        for r in dec.rows:
+            t = r.text()
+            k = t.find(needle)
+            if k >= 0 and not any(x in t for x in skip_rows_with):
+                return r.cells[k:k + len(needle)]
+        return None
+    return f
+
+
+def _box_cells(dec):
+    cells = [c for r in dec.rows for c in r.cells if c.ch in BOXCH]
+    return cells or None
+
+
+def _box_after(needle):
+    def f(dec):
+        hit = False
+        for r in dec.rows:
+            if hit:
+                cells = [c for c in r.cells if c.ch in BOXCH]
+                return cells or None
+            if needle in r.text():
+                hit = True
+        return None
+    return f
+
+
+# option -> (stdin, env, extra args, finder of the painted cells); None = not reachable cheaply
+def painted_observers():
+    diff_args = list(BASE_ARGS) + ["--hunk-header-style=normal file line-number"]
+    obs = {}
+    for o in PAINTED:
+        if o == "hunk-header-style":
+            continue
+        obs[o] = (DIFF, {}, diff_args, (lambda o: lambda dec: find_cells(dec, o))(o))
+    obs["hunk-header-style"] = (DIFF, {}, list(BASE_ARGS), lambda dec: find_cells(dec, "hunk-header-style"))
+    obs["minus-non-emph-style"] = (DIFF, {}, diff_args, _text_cells("alpha", skip_rows_with=("deltaq",)))
+    obs["plus-non-emph-style"] = (DIFF, {}, diff_args, _text_cells("alpha", skip_rows_with=("betaq",)))
+    nodeco = [a for a in diff_args if "decoration-style" not in a]
+    for o in ("commit-decoration-style", "file-decoration-style", "hunk-header-decoration-style"):
+        others = ["--%s=none" % x for x in ("commit-decoration-style", "file-decoration-style", "hunk-header-decoration-style") if x != o]
+        obs[o] = (DIFF, {}, nodeco + others + ["--commit-style=normal"], _box_cells)
+    g_env = {"DELTA_VERIF_FORCE_GUESS": "git grep -n matchq"}
+    g_args = ["--no-gitconfig", "--paging=never", "--syntax-theme=none", "--width=60"]
+    obs["grep-file-style"] = (GREP_TXT, g_env, g_args, _text_cells("src/a.rs"))
+    obs["grep-line-number-style"] = (GREP_TXT, g_env, g_args, _text_cells("12"))
+    obs["grep-match-line-style"] = (GREP_TXT, g_env, g_args, _text_cells("let matchq"))
+    obs["grep-context-line-style"] = (GREP_TXT, g_env, g_args, _text_cells("let ctxq"))
+    r_env = {"DELTA_VERIF_FORCE_GUESS": "rg wordq"}
+    obs["grep-match-word-style"] = (RG_JSON, r_env, g_args, _text_cells("wordq"))
+    obs["grep-header-decoration-style"] = (RG_JSON, r_env, g_args, _box_cells)
+    b_env = {"DELTA_VERIF_FORCE_GUESS": "git blame src/a.zzz"}
+    obs["blame-code-style"] = (BLAME_TXT, b_env, g_args, _text_cells("codeq one"))
+    obs["blame-separator-style"] = (BLAME_TXT, b_env, g_args, _text_cells("│"))
+    m_args = g_args + ["--file-decoration-style=none"]
+    obs["merge-conflict-ours-diff-header-style"] = (MERGE_DIFF, {}, m_args + ["--merge-conflict-ours-diff-header-decoration-style=none"], _text_cells("HEAD"))
+    obs["merge-conflict-theirs-diff-header-style"] = (MERGE_DIFF, {}, m_args + ["--merge-conflict-theirs-diff-header-decoration-style=none"], _text_cells("branch"))
+    obs["merge-conflict-ours-diff-header-decoration-style"] = (MERGE_DIFF, {}, m_args + ["--merge-conflict-theirs-diff-header-decoration-style=none"], _box_after("HEAD"))
+    obs["merge-conflict-theirs-diff-header-decoration-style"] = (MERGE_DIFF, {}, m_args + ["--merge-conflict-ours-diff-header-decoration-style=none"], _box_cells)
+    obs["grep-header-file-style"] = (b"src/a.rs=10=fn headq() {\nsrc/a.rs:12:let matchq = 1;\n",
+                                     {"DELTA_VERIF_FORCE_GUESS": "git grep -n -p matchq"},
+                                     g_args + ["--grep-output-type=classic", "--hunk-header-style=file line-number"],
+                                     _text_cells("src/a.rs", skip_rows_with=("matchq",)))
+    wrap = (b"diff --git a/f.zzz b/f.zzz\n--- a/f.zzz\n+++ b/f.zzz\n@@ -1,1 +1,1 @@\n"
+            b"-aaaa bbbb cccc dddd eeee ffff gggg hhhh iiii jjjj\n+aaaa bbbb cccc dddd eeee ffff gggg hhhh iiii kkkk\n")
+    obs["inline-hint-style"] = (wrap, {}, ["--no-gitconfig", "--paging=never", "--syntax-theme=none", "--side-by-side", "--width=50"],
+                                _text_cells("\u21b5"))
+    return obs
+
+
+def depth_uniformity_oracle(ctx, rep):
+    """Every style option delta has (list generated from cli.rs) x --true-color=never|always x a #rrggbb, a CSS
+    name, an ANSI name, a palette number: the colour reported by --show-config and the colour of the painted
+    element are the same for the same string, whichever option carries it."""
+    opts, _ = generated_style_options()
+    if not opts:
+        _viol(rep, "depth:no-generated-option-list", "Generated/StyleSites.lean has no cliStyleOptions", dict())
+        return
+    obs = painted_observers()
+    jobs = []
+    for o in opts:
+        deco = o.endswith("decoration-style")
+        for tc in (0, 1):
+            for c in DEPTH_COLOURS:
+                style = "%s %s" % (c, c) + (" ul" if deco else "")
+                jobs.append(("show", o, tc, c, style))
+                if o in obs and (not ctx.quick() or c in ("#123456", "rebeccapurple")):
+                    jobs.append(("paint", o, tc, c, style))
+
+    def run(job):
+        kind, o, tc, c, style = job
+        depth = "--true-color=" + ("always" if tc else "never")
+        if kind == "show":
+            rc, out, err = ctx.run_delta(["--no-gitconfig", depth, "--line-numbers", "--%s=%s" % (o, style), "--show-config"], b"")
+            if rc != 0:
+                return ("error", rc, err.decode("utf-8", "replace")[-200:])
+            for r in T.decode(out).rows:
+                t = r.text()
+                m = re.match(r"\s*%s\s+= " % re.escape(o), t)
+                if m:
+                    cells = r.cells[m.end():]
+                    return ("ok", t[m.end():], sorted({(cl.fg, cl.bg) for cl in cells}))
+            return ("absent",)
+        inp, env, args, finder = obs[o]
+        rc, out, err = ctx.run_delta(args + [depth, "--%s=%s" % (o, style)], inp, env=env)
+        if rc != 0:
+            return ("error", rc, err.decode("utf-8", "replace")[-200:])
+        cells = finder(T.decode(out))
+        if not cells:
+            return ("absent",)
+        return ("ok", None, sorted({(cl.fg, cl.bg) for cl in cells}))
+    results = parallel_map(run, jobs)
+    # what each (depth, colour) must look like: hex in 24-bit is exact; otherwise the value all options agree on
+    by_key = {}
+    for job, res in zip(jobs, results):
+        kind, o, tc, c, style = job
+        rep.case(key=("depth",) + job, nontrivial=True, sample=dict(op="depth", kind=kind, option=o, true_color=tc, colour=c, result=res[0]))
+        rep.count("depth:%s:%s" % (kind, res[0]))
+        if res[0] == "error":
+            _viol(rep, "depth:option-rejects-colour:" + o, "a style option rejects a colour of the language",
+                  dict(kind="depth", option=o, true_color=tc, style=style, rc=res[1], stderr=res[2]))
+        elif res[0] == "ok":
+            by_key.setdefault((tc, c), []).append((kind, o, res[1], res[2]))
+    observed = {o: set() for o in opts}
+    for (tc, c), lst in sorted(by_key.items()):
+        votes = {}
+        for kind, o, text, cols in lst:
+            votes[tuple(cols)] = votes.get(tuple(cols), 0) + 1
+        want = max(votes.items(), key=lambda kv: kv[1])[0]
+        try:
+            exp = oracle_color(c)
+        except ValueError:          # CSS names are not in the independent reading; only uniformity is judged
+            exp = None
+        if tc and exp and exp[0] == "rgb" and want != ((exp, exp),):
+            _viol(rep, "depth:24-bit-colour-not-exact", "in 24-bit mode a #rrggbb colour is not painted exactly",
+                  dict(kind="depth", true_color=tc, colour=c, got=repr(want)))
+        texts = {}
+        for kind, o, text, cols in lst:
+            observed[o].add(kind)
+            if kind == "show":
+                texts[text] = texts.get(text, 0) + 1
+        wtext = max(texts.items(), key=lambda kv: kv[1])[0] if texts else None
+        for kind, o, text, cols in lst:
+            if tuple(cols) != want or (kind == "show" and canon_display("ok " + hx(text)) != canon_display("ok " + hx(wtext))):
+                depth = "--true-color=" + ("always" if tc else "never")
+                _viol(rep, "depth:option-differs:" + o,
+                      "the same colour string is shown differently by this option than by the other style options (colour depth not honoured)",
+                      dict(kind="depth", how=kind, option=o, args=[depth, "--%s=%s %s" % (o, c, c)], true_color=tc, colour=c,
+                           got=dict(text=text, colours=repr(cols)), others=dict(text=wtext, colours=repr(list(want)))))
+    for o in opts:
+        rep.count("depth:observed-by=" + ("+".join(sorted(observed[o])) or "theorem-only"))
+        if not observed[o]:
+            rep.notes.setdefault("depth_unobserved_options", []).append(o)
+
+
 def run(ctx, rep):
     rep.rule = ("style strings: exhaustive <=3 tokens over a 14-word vocabulary (attributes, omit/raw, named, bright, "
                 "number, #rrggbb, normal/auto/syntax), all 256 palette numbers as fg and bg, random #rrggbb, random "
@@ -919,6 +1107,7 @@ def run(ctx, rep):
         corr_config(ctx, rep, mdl, orc)
     invariance_oracle(ctx, rep, orc)
     binary_oracle(ctx, rep)
+    depth_uniformity_oracle(ctx, rep)
     show_config_round_trip(ctx, rep)
 
 
@@ -931,4 +1120,10 @@ def replay(ctx, rep, obj):
         print(out.decode("utf-8", "replace"))
     elif case.get("kind") == "show-config":
         print("replay show-config:", case)
+    elif case.get("kind") == "depth":
+        rc, out, err = ctx.run_delta(["--no-gitconfig", "--line-numbers"] + case["args"] + ["--show-config"], b"")
+        print("replay rc=%s" % rc)
+        for r in T.decode(out).rows:
+            if case["option"] in r.text():
+                print(r.text(), sorted({(c.fg, c.bg) for c in r.cells if c.fg or c.bg}))
     run(ctx, rep)
